@@ -181,7 +181,10 @@ def _sel_ok(mask, side, labels) -> tuple:
         return ok, repr(mask)
     if mask.kind == "isin":
         d = list(det) if isinstance(det, (list, tuple)) else [det]
-        return d == want, repr(mask)
+        try:
+            return sorted(set(d)) == sorted(set(want)), repr(mask)  # a union: order and repetitions of the labels do not matter
+        except TypeError:
+            return d == want, repr(mask)
     return False, repr(mask)
 
 
@@ -189,7 +192,7 @@ def check_selection(ctx: Ctx):
     prog = ctx.prog
     mcall = prog.func("metrics.metrics:_Metric.__call__")
     mv_cls = mcall.cls
-    cases = [("int", 5, 7, [7]), ("list", 5, [7, 9], [7, 9]), ("single-list", 5, [7], [7])]
+    cases = [("int", 5, 7, [7]), ("list", 5, [7, 9], [7, 9]), ("single-list", 5, [7], [7]), ("list-descending", 5, [9, 7, 8], [9, 7, 8])]
     for cname, ridx, pidx, want_pred in cases:
         holder = []
 
